@@ -16,7 +16,7 @@ import copy
 
 
 def gen_selection_spec(rng, n_incompat_max=0, size=None, p_cycle=0.15, p_shared=0.3, p_island=0.0, p_multi_start=0.15,
-                       max_choices=4, acyclic=False):
+                       max_choices=4, acyclic=False, tree_options=False):
     n = size or rng.randint(3, 12)
     nodes = [f'N{i}' for i in range(n)]
     derive = set()
@@ -66,6 +66,9 @@ def gen_selection_spec(rng, n_incompat_max=0, size=None, p_cycle=0.15, p_shared=
         k = rng.choice([1, 2, 2, 2, 3, 3, 4])
         cands = [x for x in nodes if x != origin and x not in start and (origin, x) not in derive
                  and (not acyclic or int(x[1:]) > int(origin[1:]))]
+        if tree_options:  # an option node is offered by exactly one choice and derived by nothing else
+            targets = {t for (_, t) in derive}
+            cands = [x for x in cands if x not in targets and x not in used_opts]
         rng.shuffle(cands)
         opts = []
         for x in cands:
